@@ -4,7 +4,7 @@
    WHAT IS PROVED (for all inputs, with the primitives as arbitrary functions): the STRUCTURE of every path on which a
    decrypt entry point returns a plaintext — there is exactly one way through IntegrityProtectedSKEDataV1.decrypt
    (trailing 22 octets = D3 14 || SHA-1 of everything before the digest, and the repeated prefix octets), one way
-   through PKESessionKeyV3.decrypt_sk (the 16-bit checksum), one through the PKCS#5 unpadder; PGPKey.decrypt and
+   through PKESessionKeyV3.decrypt_sk (a key of the cipher's length and the 16-bit checksum), one through the PKCS#5 unpadder; PGPKey.decrypt and
    PGPMessage.decrypt return a plaintext only through these gates, and a key that is no recipient / a failing
    passphrase ends in an exception.  These are the statements that removing or inverting the MDC comparison, the
    quick check, the checksum test or the recipient match falsifies.
@@ -64,17 +64,40 @@ Proof. exact seipd_accept_lengths. Qed.
 Print Assumptions C04_seipd_accept_lengths.
 
 (* ---------- the session-key checksum gate ---------- *)
+(* (the key must have the full length of the cipher's key: an m cut off inside the key is refused, repair 774c7db) *)
 Theorem C04_pkesk_open_accept_iff : forall m a k,
   pkesk_open m = Ok (a, k) <->
-  exists r n, m = a :: r /\ sym_valid a = true /\ key_octets a = Some n /\ k = firstn n r /\
+  exists r n, m = a :: r /\ sym_valid a = true /\ key_octets a = Some n /\ k = firstn n r /\ length k = n /\
               sumz k mod 65536 = bytes_to_int (firstn 2 (skipn n r)).
 Proof. exact pkesk_open_accept_iff. Qed.
 Print Assumptions C04_pkesk_open_accept_iff.
+(* every refusal behind the primitive is PGPDecryptionError: an empty m, an octet that is no cipher, a cipher without a
+   key size, a short key, a wrong checksum *)
+Theorem C04_pkesk_open_reject_kinds : forall m e, pkesk_open m = Raise e -> e = EDecrypt.
+Proof. exact pkesk_open_reject_kinds. Qed.
+Print Assumptions C04_pkesk_open_reject_kinds.
+(* regression: what the tail of decrypt_sk did before that repair, on the same inputs *)
+Theorem C04_pkesk_open_old_refuted :
+  pkesk_open_old [] = Raise EIndex /\ pkesk_open_old [5] = Raise EValue /\ pkesk_open_old [1] = Ok (1, []) /\
+  pkesk_open_old [0] = Raise ENotImpl /\ pkesk_open_old [9; 0; 0] = Ok (9, [0; 0]) /\
+  pkesk_open [] = Raise EDecrypt /\ pkesk_open [5] = Raise EDecrypt /\ pkesk_open [1] = Raise EDecrypt /\
+  pkesk_open [0] = Raise EDecrypt /\ pkesk_open [9; 0; 0] = Raise EDecrypt.
+Proof. exact pkesk_open_old_refuted. Qed.
+Print Assumptions C04_pkesk_open_old_refuted.
 
 (* ---------- PKCS#5 unpadding after AES key unwrap (ECDH) ---------- *)
-Theorem C04_unpad_accept_inv : forall p m, pkcs5_unpad p = Some m -> rfc_padded_ok p m.
+(* accepted IFF the string is some m followed by n >= 1 octets of value n (RFC 6637 section 8 does not bound n by 8: the
+   sender may pad up to 40 octets; the 8-octet granularity of the whole is AES key wrap's, not the unpadder's) *)
+Theorem C04_unpad_accept_inv : forall p m, pkcs5_unpad p = Some m -> rfc_pkcs5_padded p m.
 Proof. exact unpad_accept_inv. Qed.
 Print Assumptions C04_unpad_accept_inv.
+Theorem C04_unpad_accept_iff : forall p m, pkcs5_unpad p = Some m <-> rfc_pkcs5_padded p m.
+Proof. exact unpad_accept_iff. Qed.
+Print Assumptions C04_unpad_accept_iff.
+(* the unpadder used before repair 830c52d accepted only the 8-granular form with n <= 8 *)
+Theorem C04_unpad_old_accept_inv : forall p m, pkcs5_unpad_old p = Some m -> rfc_padded_ok p m.
+Proof. exact unpad_old_accept_inv. Qed.
+Print Assumptions C04_unpad_old_accept_inv.
 
 (* ---------- PGPKey.decrypt ---------- *)
 (* a plaintext comes out only through a PKESK addressed to the key id and algorithm of the key itself or of one of its
@@ -96,6 +119,51 @@ Theorem C04_pkesk_decrypt_sk_ok_inv : forall rsa_bits rsa_dec ecdh_shared hash a
      (a = 18 /\ exists xy w, c = CEcdh xy w /\ ecdh_decrypt_m ecdh_shared hash aes_unwrap k xy w = Ok m)).
 Proof. exact pkesk_decrypt_sk_ok_inv. Qed.
 Print Assumptions C04_pkesk_decrypt_sk_ok_inv.
+
+(* what decrypt_sk raises when it yields no session key (repair 774c7db): PGPDecryptionError for every failure of a
+   primitive (bad PKCS#1 padding, point not on the curve, key unwrap), of the unpadding and of the tail; otherwise only
+   NotImplementedError (algorithm neither RSA nor ECDH / KDF cipher without key size), TypeError (ciphertext fields of the
+   other algorithm), IndexError (key unwrap returned the EMPTY string -- RFC 3394 never does) *)
+Theorem C04_pkesk_decrypt_sk_raise_kinds : forall rsa_bits rsa_dec ecdh_shared hash aes_unwrap k a c e,
+  pkesk_decrypt_sk rsa_bits rsa_dec ecdh_shared hash aes_unwrap k a c = Raise e ->
+  e = EDecrypt \/
+  (e = ENotImpl /\ ((a <> 1 /\ a <> 18) \/ (a = 18 /\ key_octets (k_kdf_enc k) = None))) \/
+  (e = EType /\ ((a = 1 /\ forall v, c <> CRsa v) \/ (a = 18 /\ forall xy w, c <> CEcdh xy w))) \/
+  (e = EIndex /\ exists xy w z, c = CEcdh xy w /\ aes_unwrap z w = Some []).
+Proof. exact pkesk_decrypt_sk_raise_kinds. Qed.
+Print Assumptions C04_pkesk_decrypt_sk_raise_kinds.
+Theorem C04_pkesk_decrypt_sk_failure_is_decrypt : forall rsa_bits rsa_dec ecdh_shared hash aes_unwrap k a c e,
+  (forall z w, aes_unwrap z w <> Some []) ->
+  (a = 1 /\ exists v, c = CRsa v) \/ (a = 18 /\ (exists xy w, c = CEcdh xy w) /\ key_octets (k_kdf_enc k) <> None) ->
+  pkesk_decrypt_sk rsa_bits rsa_dec ecdh_shared hash aes_unwrap k a c = Raise e -> e = EDecrypt.
+Proof. exact pkesk_decrypt_sk_failure_is_decrypt. Qed.
+Print Assumptions C04_pkesk_decrypt_sk_failure_is_decrypt.
+Example C04_failure_is_decrypt_premises :
+  (forall z w, (fun z c : bytes => match skipn (length z) c with [] => None | x => Some x end) z w <> Some []) /\
+  key_octets 7 <> None.
+Proof. split; [intros z w; destruct (skipn (length z) w); discriminate|discriminate]. Qed.
+
+(* every failure of PGPKey.decrypt on a message with an encrypted data packet: PGPDecryptionError, PGPError (not a
+   recipient; a session key packet naming the key id under another algorithm -- StopIteration before the repair), the three
+   classes above, or a cipher that cannot be set up for the data *)
+Theorem C04_key_decrypt_failure_kinds : forall sha1 cfb_dec rsa_bits rsa_dec ecdh_shared hash aes_unwrap holder es ct x,
+  key_decrypt sha1 cfb_dec rsa_bits rsa_dec ecdh_shared hash aes_unwrap holder (es, Some ct) = Raise x ->
+  x = EDecrypt \/ x = EPGP \/ x = ENotImpl \/ x = EType \/ x = EIndex \/ x = EPrim.
+Proof. exact key_decrypt_failure_kinds. Qed.
+Print Assumptions C04_key_decrypt_failure_kinds.
+Theorem C04_key_decrypt_leaf_old_refuted : forall sha1 cfb_dec rsa_bits rsa_dec ecdh_shared hash aes_unwrap k id a c ct,
+  a <> k_alg k ->
+  key_decrypt_leaf_old sha1 cfb_dec rsa_bits rsa_dec ecdh_shared hash aes_unwrap k [PK id a c] ct = Raise EStopIter /\
+  key_decrypt_leaf sha1 cfb_dec rsa_bits rsa_dec ecdh_shared hash aes_unwrap k [PK id a c] ct = Raise EPGP.
+Proof. exact key_decrypt_leaf_old_refuted. Qed.
+Print Assumptions C04_key_decrypt_leaf_old_refuted.
+
+(* session key packets that are not followed by an encrypted data packet (a message cut right after them): PGPError
+   (repair b46a5dd; the input object used to come back as if it were the decrypted message) *)
+Theorem C04_key_decrypt_no_data_raises : forall sha1 cfb_dec rsa_bits rsa_dec ecdh_shared hash aes_unwrap holder es,
+  es <> [] -> key_decrypt sha1 cfb_dec rsa_bits rsa_dec ecdh_shared hash aes_unwrap holder (es, None) = Raise EPGP.
+Proof. exact key_decrypt_no_data_raises. Qed.
+Print Assumptions C04_key_decrypt_no_data_raises.
 
 (* a private key none of whose key ids is named by a PKESK raises PGPError, whatever else the message contains *)
 Theorem C04_decrypt_wrong_recipient_raises : forall sha1 cfb_dec rsa_bits rsa_dec ecdh_shared hash aes_unwrap holder es ct,
